@@ -67,8 +67,18 @@ def discharge_one(job):
     try:
         full = opts.get("z3_ms", Z3_TIMEOUT_MS)
         first = min(full, opts.get("z3_first_ms", 4000))
-        r, dt, model, reason = _check_z3(smt2, first)
+        r, dt, model, reason = _check_z3(smt2, min(first, opts["z3_probe_ms"]) if opts.get("z3_probe_ms") else first)
         res.update(result=r, ms=int(dt * 1000), backend="z3-" + z3.get_version_string(), model=model, reason=reason)
+        if r == "unknown" and opts.get("z3_probe_ms") and opts.get("cvc5", True) and "lambda" not in smt2:
+            # opt-in stage order (DEDUCTIVE entry "opts": {"z3_probe_ms": n}): a short z3 attempt, then cvc5, then the usual
+            # z3 stages - for obligation families on which z3's instantiation wanders while cvc5 answers at once; only a
+            # definite answer of cvc5 is taken, otherwise the pipeline below runs unchanged
+            r0, dt0 = _check_cvc5(smt2, opts.get("cvc5_probe_s", 5))
+            res["ms"] += int(dt0 * 1000)
+            if r0 in ("unsat", "sat"):
+                res.update(result=r0, backend="cvc5-1.0.3", model=None, reason="")
+                return res
+            opts = dict(opts, cvc5=False)  # already asked
         if r == "unknown" and "forall" in smt2:
             # pure E-matching (no model-based instantiation): quantified obligations whose instances are all triggered
             # by ground terms are decided in milliseconds this way where MBQI wanders off; only `unsat` is taken
